@@ -224,6 +224,8 @@ class RepoInterp:
 
     def on_attr(self, obj: V, attr: str, node: ast.AST, st: State) -> Optional[V]:
         ci = None
+        if attr == "__dict__" and isinstance(obj, Ref) and obj.kind == "obj" and isinstance(st.deref(obj), dict):
+            return Ref(obj.id, "dict")  # the object's own attribute dictionary (what vars(obj) hands out): the same storage
         if isinstance(obj, S) and obj.name == "self" and self.self_class is not None:
             # a class-level constant read through the instance (`self._KINDS`); instance attributes are the scenario's business
             for c in self.repo.mro(self.self_class):
@@ -903,10 +905,25 @@ class RepoInterp:
             ci_new = self.repo.resolve_class(self.cur_fi.module, call.func.id)
             if ci_new is not None and self.repo.method(ci_new, "__init__") is None:
                 return st.alloc("obj", {"__class__": K(ci_new.fq)})  # no __init__ in the package: a bare instance
+        if self.construct_instances and isinstance(call.func, ast.Name) and call.func.id == "cls" and isinstance(st.env.get("cls"), S) \
+                and st.env["cls"].name.split(":", 1)[0] in ("class", "func", "mod"):
+            # `cls(...)` inside a classmethod that was called on a class of the package: an instance of that class
+            cfq_c = st.env["cls"].name.split(":", 1)[1]
+            mn_c, _, cn_c = cfq_c.rpartition(".")
+            ci_c = self.repo.cls(mn_c, cn_c, required=False)
+            if ci_c is not None:
+                obj_c = st.alloc("obj", {"__class__": K(ci_c.fq)})
+                init_c = self.repo.method(ci_c, "__init__")
+                if init_c is not None:
+                    self.inline_call(init_c, call, obj_c, args, kwargs, st)
+                return obj_c
         if (self.construct_instances or priv_cls is not None) and isinstance(call.func, (ast.Name, ast.Attribute)):
             callee0 = self.resolve(call, fval)
+            via_cls = isinstance(call.func, ast.Name) and call.func.id == "cls" and isinstance(st.env.get("cls"), S) and callee0 is not None and callee0.cls is not None \
+                and st.env["cls"].name in ("class:" + callee0.cls.fq, "func:" + callee0.cls.fq, "mod:" + callee0.cls.fq)  # `cls(...)` inside a classmethod called on the class
             if callee0 is not None and callee0.cls is not None and callee0.qualname.endswith(".__init__") and not isinstance(fval, (R, Ref)) \
-                    and dotted(call.func) is not None and dotted(call.func).split(".")[-1] == callee0.cls.name.split(".")[-1]:
+                    and dotted(call.func) is not None and (dotted(call.func).split(".")[-1] == callee0.cls.name.split(".")[-1] or via_cls):
+                fval = None if via_cls else fval
                 obj = st.alloc("obj", {"__class__": K(callee0.cls.fq)})
                 self.inline_call(callee0, call, obj, args, kwargs, st)
                 return obj
@@ -1425,7 +1442,9 @@ class _OracleInterp(Interp):
                     v = self.eval(part.value, st)
                     if st.pending is not None:
                         return U("f-string field raised")
-                    if out is not None and part.format_spec is None and part.conversion in (-1, 115, 114) and isinstance(v, K) and isinstance(v.v, (str, int)) and not isinstance(v.v, bool):
+                    if out is not None and part.format_spec is None and part.conversion in (-1, 115) and isinstance(v, R) and v.kind == "exc" and isinstance(v.fields.get("message"), K):
+                        out += str(v.fields["message"].v)  # str(exception) is its message
+                    elif out is not None and part.format_spec is None and part.conversion in (-1, 115, 114) and isinstance(v, K) and isinstance(v.v, (str, int)) and not isinstance(v.v, bool):
                         out += repr(v.v) if part.conversion == 114 else str(v.v)  # !r / !s / none
                     else:
                         out = None
